@@ -705,6 +705,11 @@ func (vfs *OrefaFS) Remove(name string) error {
 		return &fs.PathError{Op: op, Path: name, Err: vfs.err.NoSuchFile}
 	}
 
+	if child == parent {
+		// the root directory can't be removed.
+		return &fs.PathError{Op: op, Path: name, Err: vfs.err.PermDenied}
+	}
+
 	parent.mu.Lock()
 	defer parent.mu.Unlock()
 
@@ -745,6 +750,11 @@ func (vfs *OrefaFS) RemoveAll(path string) error {
 
 	if !childOk || !parentOk {
 		return nil
+	}
+
+	if child == parent {
+		// the root directory can't be removed.
+		return &fs.PathError{Op: "unlinkat", Path: path, Err: vfs.err.PermDenied}
 	}
 
 	parent.mu.Lock()
@@ -808,6 +818,11 @@ func (vfs *OrefaFS) Rename(oldname, newname string) error {
 
 	if !nParent.mode.IsDir() {
 		return &os.LinkError{Op: op, Old: oldname, New: newname, Err: vfs.err.NotADirectory}
+	}
+
+	if oChild == oParent {
+		// the root directory can't be moved.
+		return &os.LinkError{Op: op, Old: oldname, New: newname, Err: vfs.err.InvalidArgument}
 	}
 
 	if strings.HasPrefix(nAbsPath, oAbsPath+string(vfs.PathSeparator())) {
